@@ -208,23 +208,24 @@ def writeChunks (input : Bytes) (w : W) (maxChunk : Nat) (used : Nat) : W × Nat
 termination_by input.length
 decreasing_by simp; omega
 
+/-- the last chunk: `0 CRLF CRLF` -/
+def termBytes : Bytes := [48, 13, 10, 13, 10]
+
 def BodyWriter.write (bw : BodyWriter) (input : Bytes) (w : W) : BodyWriter × W × Except Fault Nat :=
   match bw.mode with
   | .none => (bw, w, .error (.panic "body.rs write: SenderMode::None"))
   | .sized left =>
-    let n := min (min w.available input.length) left
-    let (w', _) := w.tryWrite (input.take n)
-    let left' := left - n
-    ({ mode := .sized left', ended := bw.ended || left' == 0 }, w', .ok n)
+    ({ mode := .sized (left - min (min w.available input.length) left),
+       ended := bw.ended || left - min (min w.available input.length) left == 0 },
+     (w.tryWrite (input.take (min (min w.available input.length) left))).1,
+     .ok (min (min w.available input.length) left))
   | .chunked =>
     if input.isEmpty then
       if !bw.ended then
-        let (w', ok) := w.tryWrite (strBytes "0\r\n\r\n")
-        ({ bw with ended := ok }, w', .ok 0)
+        ({ bw with ended := (w.tryWrite termBytes).2 }, (w.tryWrite termBytes).1, .ok 0)
       else (bw, w, .ok 0)
     else
-      let (w', used) := writeChunks input w 10240 0
-      (bw, w', .ok used)
+      (bw, (writeChunks input w 10240 0).1, .ok (writeChunks input w 10240 0).2)
 
 def BodyWriter.bodyHeader (bw : BodyWriter) : Option Hdr :=
   match bw.mode with
